@@ -352,11 +352,8 @@ def dropped_parameter_rule(ctx, rid: str, pid: str, floor: int = 1):
             if not isinstance(tgt, (ast.FunctionDef, ast.AsyncFunctionDef)) or tgt is fn:
                 continue
             tp = {a.arg for a in tgt.args.posonlyargs + tgt.args.args + tgt.args.kwonlyargs}
-            if any(k.arg is None for k in c.keywords):
-                continue
-            given = {k.arg for k in c.keywords}
             for p in params:
-                if p in tp and p not in given and (fn.name, p) not in done:
+                if p in tp and (fn.name, p) not in done:
                     done.add((fn.name, p))
                     qual = (ci.name + '.' if ci else '') + fn.name
                     ex = DROP_EXEMPT.get((m.name, qual, p))
@@ -483,16 +480,16 @@ def _pos_key(fn, node, name) -> str:
 
 
 # ---------------------------------------------------------------------------------------------------------------------
-# (module, function, text of the or-expression) -> reason
+# (module, function) -> reason; for value selections whose fallback is not a zero of the stored type
 GET_EXEMPT = {
-    ('cirq.ops.pauli_string', 'inplace_before', 'conjugated.get(q) or 0'): 'the fallback is the zero of the stored type (an int Pauli index): 0 and missing mean the same (identity)',
-    ('cirq.vis.heatmap', '_plot_on_axis', "self._config.get('annotation_map') or self._config.get('annotation_format')"): 'boolean use: whether any annotation is configured',
+    ('cirq.vis.heatmap', '_plot_on_axis'): 'boolean use: whether any annotation is configured',
 }
+_ZERO_SRC = {'0', '0.0', '0j', "''", '""', '()', '[]', '{}', 'False', 'None', 'set()', 'frozenset()', 'dict()', 'list()', 'tuple()'}
 
 
 def lookup_truthiness_rule(ctx, rid: str, pid: str, floor: int = 1):
     repo = ctx.repo
-    ctx.rule(rid, 'presence is not truthiness: the result of a one-argument `mapping.get(key)` is not used as `get(key) or other` (value selection) - a stored 0, 0.0, False or empty '
+    ctx.rule(rid, 'presence is not truthiness: the result of a one-argument `mapping.get(key)` is not used as `get(key) or other` (value selection), unless other is the zero of the stored type - a stored 0, 0.0, False or empty '
              'value would be taken for a missing key; lookups with an explicit sentinel / `is None` test / `in` test are what the rule counts as discharged', floor=floor, style='WR')
     n = 0
     for m, ci, fn in _functions(repo, pid):
@@ -511,9 +508,11 @@ def lookup_truthiness_rule(ctx, rid: str, pid: str, floor: int = 1):
                     k += 1
                     n += 1
                     txt = ast.unparse(b)
-                    ex = GET_EXEMPT.get((m.name, fn.name, txt))
-                    ok = ex is not None
-                    ctx.ob(rid, f'{m.name}.{fn.name}:get-or:{ast.unparse(v)[:50]}', ok, ('tabled: ' + ex) if ex else
+                    ex = GET_EXEMPT.get((m.name, fn.name))
+                    # `d.get(k) or <zero>`: a stored zero and a missing key both give the zero - no information is lost
+                    zero_fallback = b.values.index(v) == len(b.values) - 2 and ast.unparse(b.values[-1]).replace(' ', '') in _ZERO_SRC
+                    ok = ex is not None or zero_fallback
+                    ctx.ob(rid, f'{m.name}.{fn.name}:get-or#{k}', ok, ('tabled: ' + ex) if ex else '' if ok else
                            f'`{txt[:90]}`: a value 0 / 0.0 / False stored under the key is treated as if the key were missing', m.rel, b.lineno)
     return n
 
